@@ -56,6 +56,7 @@ func runC11(c *an.Ctx) {
 	runE2(c, "R11.2", nil)
 	r112append(c)
 	r113(c)
+	r113header(c)
 	c.Min("R11.1", 40)
 	c.Min("R11.2", 60)
 	c.Min("R11.3", 4)
@@ -131,6 +132,29 @@ func r111rng(c *an.Ctx) {
 				}
 			}
 		}
+	}
+	// the default random source is created per resource (a package-level generator would be shared by
+	// resources whose locks know nothing of each other)
+	if cc := c.Prog.Func(resPkg, "", "computeConfig"); cc != nil {
+		fresh, found := true, false
+		an.Instrs(cc, func(in ssa.Instruction) {
+			st, ok := in.(*ssa.Store)
+			if !ok {
+				return
+			}
+			if _, sn, f, isF := an.FieldOf(st.Addr); !isF || f != "rng" || !strings.HasSuffix(sn, "/pkg/resource.config") {
+				return
+			}
+			found = true
+			for _, s := range an.Sources(st.Val) {
+				call, isCall := s.(*ssa.Call)
+				if !isCall || an.CalleeName(call) != "math/rand.New" {
+					fresh = false
+				}
+			}
+		})
+		c.Check(found && fresh, rule, "pkg/resource.computeConfig|default random source is created per resource", cc.Pos(), "rng: rand.New(…) per call",
+			"the default random source is not a generator created for this resource: several resources share one *rand.Rand while each only holds its own lock")
 	}
 	for _, u := range uses {
 		c.SawFunc(an.FuncName(u.fn))
@@ -340,6 +364,50 @@ func r113(c *an.Ctx) {
 		ok, why := check(a.in, a.fn, 0)
 		c.SawFunc(an.FuncName(a.fn))
 		c.Check(ok, rule, an.FuncName(a.fn)+"|read of closeErr is ordered after its write", a.in.Pos(), why, why)
+	}
+}
+
+// r113header: the client reads the header only after it observed headerC closed (the server writes the
+// header under headerM before closing headerC).
+func r113header(c *an.Ctx) {
+	const rule = "R11.3"
+	for _, fn := range c.Prog.FuncsIn("pkg/wrap") {
+		if fn.Signature.Recv() == nil || !strings.HasSuffix(an.NamedTypeName(fn.Signature.Recv().Type()), "/pkg/wrap.clientStream") {
+			continue
+		}
+		an.Instrs(fn, func(in ssa.Instruction) {
+			u, ok := in.(*ssa.UnOp)
+			if !ok || u.Op != token.MUL {
+				return
+			}
+			if _, sn, f, isF := an.FieldOf(u.X); !isF || f != "header" || !strings.HasSuffix(sn, "/pkg/wrap.ClientServerStream") {
+				return
+			}
+			// guarded by a select case / receive on headerC
+			guarded := false
+			for _, e := range an.GuardingEdges(u) {
+				bo, isBO := e.If.Cond.(*ssa.BinOp)
+				if !isBO || !e.Branch {
+					continue
+				}
+				ex, isEx := bo.X.(*ssa.Extract)
+				if !isEx || ex.Index != 0 {
+					continue
+				}
+				sel, isSel := ex.Tuple.(*ssa.Select)
+				idx, isC := an.ConstInt(bo.Y)
+				if !isSel || !isC || int(idx) >= len(sel.States) {
+					continue
+				}
+				st := sel.States[idx]
+				if _, _, f, isF := an.FieldOf(st.Chan); st.Dir == types.RecvOnly && isF && f == "headerC" {
+					guarded = true
+				}
+			}
+			c.SawFunc(an.FuncName(fn))
+			c.Check(guarded, rule, an.FuncName(fn)+"|read of header is ordered after headerC was closed", u.Pos(), "dominated by a receive on headerC",
+				"the client reads the stream header without having observed headerC closed: the handler goroutine may still be writing it (grpc.SetHeader / SendHeader)")
+		})
 	}
 }
 
